@@ -723,7 +723,8 @@ class Inliner:
             for ch in ast.iter_child_nodes(n):
                 if isinstance(ch, (ast.Lambda, ast.ListComp, ast.SetComp, ast.DictComp, ast.GeneratorExp)):
                     continue
-                c2 = cond or isinstance(n, (ast.BoolOp, ast.IfExp))
+                # (the first operand of and/or and the test of a conditional expression are always evaluated)
+                c2 = cond or (isinstance(n, ast.BoolOp) and ch is not n.values[0]) or (isinstance(n, ast.IfExp) and ch is not n.test)
                 if isinstance(ch, ast.Call) and not c2:
                     h, recv = self._callee(f, ch)
                     if h is not None and h.expr is None and h.qname != f.qname and not h.loop_return:
